@@ -17,12 +17,18 @@
         -> `U` | `L <idx>` | `E`                                                  ChannelLockHandler*.handle (Float)
    sc rl rr rb rt  pl pr pb pt  az el      (reference edges, reproduction edges: left right bottom top)
         -> `<az bits> <el bits>` | `unsorted`                                     scale_az_el (Float)
+   st <n> {x y z}*n
+        -> planes `|` rows `;` leaf indices, or `none`                             AllocentricPanner._speaker_tree (Float)
+   rc <fuel> <n> {x y z az el  ax ay az prio}*n <k> {zones as in ge} px py pz <off|none|bits> gain diffuse
+        -> `<final mask> <U | L i> <direct bits>*n <diffuse bits>*n` | `none`      GainCalc.render, Cartesian point object (Float)
+   cp <0|1> az el  -> `<az bits> <el bits>`                                         compensate_position (Float)
    fl x  -> bits of  x*0  0*x  0+0  sqrt 0  nan_to_num 0                          the zero laws on doubles
 -/
 import Earverif.Model.Zone
 import Earverif.Model.ChannelLock
+import Earverif.Model.CartLock
 import Earverif.Driver.Util
-open Earverif.Zone Earverif.Lock Earverif.Driver
+open Earverif.Zone Earverif.Lock Earverif.CartLock Earverif.Driver
 
 abbrev Parser := StateT (List String) Option
 
@@ -155,6 +161,47 @@ def request : Parser String := do
       | none => pure "unsorted"
       | some (a, e) => pure s!"{bits a} {bits e}"
     | _ => failure
+  | "st" =>
+    let n ← nat
+    let ps ← rep (do let x ← flt; let y ← flt; let z ← flt; pure (⟨x, y, z⟩ : P3 Float)) n
+    done
+    match speakerTree ps with
+    | none => pure "none"
+    | some t => pure (String.intercalate "|" (t.map fun pl =>
+        String.intercalate ";" (pl.map fun row => String.intercalate " " (row.map fun l => toString l.idx))))
+  | "rc" =>
+    let fuel ← nat
+    let n ← nat
+    let rows ← rep (do
+      let s ← spkP
+      let x ← flt; let y ← flt; let z ← flt; let pr ← nat
+      pure (s.1, (⟨x, y, z⟩ : P3 Float), pr)) n
+    let k ← nat
+    let zs ← rep zoneP k
+    let px ← flt; let py ← flt; let pz ← flt
+    let l ← tok
+    let gain ← flt
+    let diffuse ← flt
+    done
+    let lock ← (if l == "off" then some none
+                else if l == "none" then some (some none)
+                else (l.toNat?).map fun b => some (some (Float.ofBits (UInt64.ofNat b))) : Option (Option (Option Float)))
+    match renderCartLock fuel (rows.map (·.1)) (rows.map (·.2.1)) (rows.map (·.2.2)) (zs.map (·.1))
+        ⟨px, py, pz⟩ lock gain diffuse with
+    | none => pure "none"
+    | some (final, lk, (d, f)) =>
+      let lks := match lk with
+        | .unchanged => "U"
+        | .locked i => s!"L{i}"
+        | .error => "E"
+      pure (String.intercalate " " ([showMask final, lks] ++ d.map bits ++ f.map bits))
+  | "cp" =>
+    let h ← nat
+    let az ← flt
+    let el ← flt
+    done
+    let r := compensatePosition (h == 1) az el
+    pure s!"{bits r.1} {bits r.2}"
   | "fl" =>
     let x ← flt
     done
